@@ -19,7 +19,7 @@ from vlib import c20_api as A          # noqa: E402
 import translate as T                  # noqa: E402
 import corr as C                       # noqa: E402
 
-COQ_MODULES = A.MODS[:-1]              # all but JupiterMoons
+COQ_MODULES = list(A.MODS)             # every module is translated (JupiterMoons since round 4)
 PDIR = os.path.join(VERIF, "coq", "proofs", "C20")
 KIND = {"None": "KNone", "str": "KStr", "list": "KList", "tuple": "KTuple", "complex": "KComplex",
         "Angle": "KAngle", "Epoch": "KEpoch"}
